@@ -13,6 +13,7 @@ import jax
 import jax.numpy as jnp
 
 from . import sym
+from . import harness as _harness
 from .harness import HarnessError, log
 from .jx2smt import Interp, symarray
 from .numeval import NumEval, free_vars
@@ -47,8 +48,110 @@ class In:
         return self.sym[()] if self.shape == () else self.sym
 
 
+REGISTRY = []  # every Encoded of the running check (for the generic replay)
+
+
+def _names(t):
+    out, seen, stack = set(), set(), [t]
+    while stack:
+        c = stack.pop()
+        if not z3.is_expr(c):
+            continue
+        i = c.get_id()
+        if i in seen:
+            continue
+        seen.add(i)
+        if c.num_args() == 0 and c.decl().kind() == z3.Z3_OP_UNINTERPRETED:
+            out.add(c.decl().name())
+        stack.extend(c.children())
+    return out
+
+
+def goal_replay(goal, assumptions=(), encs=None, tol=1e-6, npoints=12, label=""):
+    """generic replay of a `sat` answer: (1) concrete points -- the model's, then fixed pseudo-random ones inside the
+    declared input ranges that satisfy the assumptions; (2) the REAL function of every encoding the goal mentions is
+    run at the point and must agree with the encoding there (translator validation at the counterexample);
+    (3) the goal, evaluated on those values with a relative slack, must be robustly false."""
+
+    def replay(model):
+        gn = _names(goal) if z3.is_expr(goal) else set()
+        cand = encs if encs is not None else [e for e in REGISTRY if gn & (set(e.vars) | set(e.interp.ackdefs) | set(e.uf_syms))]
+        if not z3.is_expr(goal):
+            if bool(goal):
+                return {"reproduced": False, "detail": "goal is concretely true"}
+            return {"reproduced": True, "detail": f"concrete mismatch in the program traced from the real code (no symbolic input involved){': ' + label if label else ''}"}
+        if not cand:
+            return {"reproduced": False, "detail": "no encoding of real code is attached to this obligation (opaque symbols only)"}
+        ack, ranges, allvars = {}, {}, set()
+        for e in cand:
+            ack.update(e.interp.ackdefs)
+            ranges.update(e.ranges)
+            allvars |= set(e.vars) | set(e.uf_syms)
+        unknown = gn - allvars - set(ack) - set(sym.CTX.consts)
+        unknown = {n for n in unknown if not (n.startswith("tw") or n.startswith("sqrt") or n == "PI")}
+        if unknown:
+            return {"reproduced": False, "detail": f"goal mentions symbols without a concrete meaning: {sorted(unknown)[:5]}"}
+        rng = random.Random(zlib.crc32(label.encode()) if label else 7)
+        points = []
+        base = {nm: 0.37 + 0.11 * (zlib.crc32(nm.encode()) % 10) for nm in allvars}
+        for nm in allvars:
+            lo, hi = ranges.get(nm, (-1.0, 1.0))
+            if not (lo <= base[nm] <= hi):
+                base[nm] = lo + (hi - lo) * (0.3 + 0.05 * (zlib.crc32(nm.encode()) % 10))
+        p0 = dict(base)
+        for k, v in model.items():
+            if isinstance(v, Fraction) and k in allvars:
+                p0[k] = float(v)
+        points.append(("the solver's model", p0))
+        points.append(("a fixed generic point", base))
+        for j in range(npoints):
+            points.append((f"pseudo-random point {j}", {nm: ranges.get(nm, (-1.0, 1.0))[0] + (ranges.get(nm, (-1.0, 1.0))[1] - ranges.get(nm, (-1.0, 1.0))[0]) * rng.random() for nm in sorted(allvars)}))
+        tried = []
+        for what, vals in points:
+            ne = NumEval(dict(vals), ack=ack)
+            try:
+                ok = True
+                for a in assumptions:
+                    if z3.is_expr(a) and (_names(a) - allvars - set(ack) - set(sym.CTX.consts)):
+                        continue  # about other symbols
+                    if not ne.holds(a, 1e-7):
+                        ok = False
+                        break
+                if not ok:
+                    tried.append(f"{what}: outside the assumptions")
+                    continue
+                for e in cand:
+                    real, _ = e.real_outputs({k: v for k, v in vals.items() if k in e.vars or k in e.uf_syms})
+                    for r, o in zip(real, e.outs):
+                        idxs = list(np.ndindex(o.shape))
+                        if len(idxs) > 60:
+                            idxs = rng.sample(idxs, 60)
+                        scale = 1.0 + float(np.max(np.abs(np.where(np.isfinite(r), r, 0)))) if r.size else 1.0
+                        for i in idxs:
+                            cv, rv = ne.scalar(o[i]), (r[i].item() if hasattr(r[i], "item") else r[i])
+                            if isinstance(cv, bool) or isinstance(rv, bool):
+                                agree = bool(cv) == bool(rv)
+                            elif not (np.isfinite(complex(cv)) and np.isfinite(complex(rv))):
+                                raise ArithmeticError("non-finite output of the real code at the replay point")
+                            else:
+                                agree = abs(complex(cv) - complex(rv)) <= 1e-7 * scale
+                            if not agree:
+                                return {"reproduced": False, "detail": f"encoding and real code disagree at {what} (output component {i}: {cv} vs {rv})"}
+                why = []
+                if not ne.holds(goal, tol, explain=why):
+                    return {"reproduced": True, "detail": f"{label + ': ' if label else ''}at {what} the real code was run and agrees with its encoding; the stated relation fails there: {'; '.join(why) or 'disjunction false'}",
+                            "inputs": {k: vals[k] for k in sorted(vals)[:40]}}
+                tried.append(f"{what}: relation holds")
+            except (ArithmeticError, KeyError, NotImplementedError, ZeroDivisionError, OverflowError) as ex_:
+                tried.append(f"{what}: {type(ex_).__name__} {ex_}")
+        return {"reproduced": False, "detail": "; ".join(tried)[:600]}
+
+    return replay
+
+
 class Encoded:
     def __init__(self, real_fn, ins, tag="", closed=None, uf_hook=None):
+        REGISTRY.append(self)
         self.real_fn = real_fn
         self.ins = ins
         if closed is None:
@@ -77,9 +180,22 @@ class Encoded:
             out.append(jnp.asarray(a, dtype=i.dtype))
         return out, ne
 
+    @property
+    def uf_syms(self):
+        """free symbols standing for results of opaque calls (own or, for a related run, the base run's)"""
+        return {k: v for k, v in free_vars([o for c in self.interp.uf_calls for o in c[2]]).items() if k not in self.vars}
+
     def real_outputs(self, values):
         cin, ne = self.concrete_inputs(values)
-        res = self.real_fn(*cin)
+        from . import jx2smt as _j
+
+        del _j.UF_PLAYBACK[:]
+        for _nm, _ins, outs in self.interp.uf_calls:  # opaque calls return the values the assignment gives their result symbols
+            _j.UF_PLAYBACK.append([ne.array(o, dtype=complex if any(isinstance(x, Cx) for x in np.asarray(o, dtype=object).reshape(-1)) else float) for o in outs])
+        try:
+            res = self.real_fn(*cin)
+        finally:
+            del _j.UF_PLAYBACK[:]
         flat = jax.tree_util.tree_leaves(res)
         return [np.asarray(r) for r in flat], ne
 
@@ -169,3 +285,6 @@ class Encoded:
             )
             n += 1
         return n
+
+
+_harness.DEFAULT_REPLAY = lambda o: goal_replay(o.goal, o.assumptions, label=o.family)
